@@ -546,6 +546,9 @@ def str_method(interp, st, recv, name, args, kwargs):
     elif name == 'lower' and not args:
         f = interp.uf('lower', k, k)
         yield st, SV(k, f(z))
+    elif name == 'title' and not args:
+        f = interp.uf('title', k, k)
+        yield st, SV(k, f(z))
     elif name == 'upper' and not args:
         f = interp.uf('upper', k, k)
         yield st, SV(k, f(z))
